@@ -135,7 +135,7 @@ BUILTIN_TYPES = ('str', 'bytes', 'bytearray', 'int', 'bool', 'float', 'dict', 'l
 BUILTIN_EXC = ('ValueError', 'KeyError', 'IndexError', 'TypeError', 'OSError', 'Exception',
                'AttributeError', 'RuntimeError', 'KeyboardInterrupt', 'SystemExit',
                'ImportError', 'BaseException', 'RecursionError', 'UnicodeDecodeError',
-               'TimeoutError', 'LookupError', 'StopIteration', 'AssertionError')
+               'TimeoutError', 'LookupError', 'StopIteration', 'AssertionError', 'GeneratorExit')
 
 
 def builtin(eng, name):
@@ -1122,6 +1122,14 @@ def _quant(eng, st, e, q):
     yield st, vbool(t)
 
 
+def sp_unshared(eng, st, e):
+    """unshared(x): x is not (statically, on this path) a module- or class-level object - it is
+    safe for the caller to mutate it in place. Decided by the engine's origin tracking; a value
+    obtained through a contract is fresh exactly when that contract says so."""
+    v = eng.spec(e.args[0], st, dict(st.env), modname=eng.modname(st))
+    yield st, vbool(getattr(v, 'origin', None) is None)
+
+
 def sp_exists_split(eng, st, e):
     """exists_split(lambda p, e: body, s): some split s == p + e satisfies body."""
     lam = e.args[0]
@@ -1190,7 +1198,7 @@ def sp_alloc_now(eng, st, e):
     yield st, st.ghost['$alloc']
 
 
-SPECIAL = {'alloc_now': sp_alloc_now, 'old': sp_old, 'forall': sp_forall, 'exists': sp_exists, 'exists_split': sp_exists_split, 'implies': sp_implies,
+SPECIAL = {'alloc_now': sp_alloc_now, 'old': sp_old, 'forall': sp_forall, 'exists': sp_exists, 'exists_split': sp_exists_split, 'unshared': sp_unshared, 'implies': sp_implies,
            'typeis': sp_typeis}
 
 
@@ -1274,6 +1282,7 @@ def _len(eng, st, args, kwargs, line):
     elif k in ('rec', 'tup', 'pylist'):
         yield st, vint(len(v.t))
     elif k == 'dict':
+        eng.fact(st, card(v.t[0]) >= 0)
         yield st, vint(card(v.t[0]))
     elif k == 'json':
         eng.fact(st, j_len(v.t) >= 0)
